@@ -317,6 +317,10 @@ func addHistory(r *evid.Run) {
 				ob.Known(id)
 			}
 			tr := inssvc.RunHistory(h)
+			if tr.NotQuiet {
+				ob.Discard("not-quiet-before-stop")
+				return nil
+			}
 			a := inssvc.Analyse(tr)
 			Classify(a, ob)
 			return CheckBlocks(a)
@@ -337,6 +341,10 @@ func addStall(r *evid.Run) {
 				fmt.Sscan(v, &scale)
 			}
 			tr := inssvc.RunStall(s, scale)
+			if tr.NotQuiet {
+				ob.Discard("not-quiet-before-stop")
+				return nil
+			}
 			a := inssvc.Analyse(tr)
 			Classify(a, ob)
 			ob.Tag("long-stall")
@@ -364,7 +372,11 @@ func addStress(r *evid.Run, quick, thorough int) {
 				// the detector fires is one under which none of the guarantees can be relied on; the
 				// unchanged tree is race-free on these paths (the drivers shut down quiescently).
 				var err error
+				notQuiet = false
 				ok := RaceT.Run("case", func(*testing.T) { err = stressBody(s, ob) })
+				if notQuiet {
+					return nil // discarded: no race attribution either
+				}
 				if err == nil && !ok {
 					return fmt.Errorf("the race detector reported a data race while this stress case ran (report above: \"WARNING: DATA RACE\"): " +
 						"unsynchronised access in the promise / insert-service code during concurrent pushes")
@@ -379,6 +391,10 @@ func addStress(r *evid.Run, quick, thorough int) {
 // RaceT is set by TestRace.
 var RaceT *testing.T
 
+// notQuiet is set by stressBody when the case was discarded because the writer did not
+// become quiescent before shutdown (cases run one at a time).
+var notQuiet bool
+
 func stressBody(s inssvc.Stress, ob *evid.Obs) error {
 	runs := 1
 	if ob.Witness {
@@ -386,6 +402,11 @@ func stressBody(s inssvc.Stress, ob *evid.Obs) error {
 	}
 	for i := 0; i < runs; i++ {
 		tr := inssvc.RunStress(s)
+		if tr.NotQuiet {
+			ob.Discard("not-quiet-before-stop")
+			notQuiet = true
+			return nil
+		}
 		a := inssvc.Analyse(tr)
 		if i == 0 {
 			Classify(a, ob)
